@@ -1,6 +1,7 @@
 import RedoModel.Props.C18d
 import RedoModel.Props.C18c
-import RedoModel.Lemmas.LogRec
+import RedoModel.Lemmas.LogRecRt
+import RedoModel.Props.C18e
 import RedoModel.Props.C18b
 import RedoModel.Generated
 /-!
@@ -20,64 +21,12 @@ theorem syntax_tied : String.ofList pre = RedoModel.Generated.metaPrefix ∧
 theorem roundtrip (r : Rec)
     (hk : ∀ c ∈ r.kind, c ≠ ':' ∧ c ≠ '@' ∧ c ≠ '\n')
     (hp : canonI32 r.pid = some r.pid) (ht : canonTs r.ts = true) (hx : '\n' ∉ r.text) :
-    parse (format r) = .ok r := by
-  have hpc := canonI32_chars hp
-  have htc := canonTs_chars ht
-  have hpid : ∀ c ∈ r.pid, c ≠ ':' ∧ c ≠ '@' ∧ c ≠ '\n' := by
-    intro c hc
-    rcases hpc c hc with h | h
-    · have := isDigit_ne h; exact ⟨this.1, this.2.1, this.2.2.1⟩
-    · subst h; decide
-  have hts : ∀ c ∈ r.ts, c ≠ ':' ∧ c ≠ '@' ∧ c ≠ '\n' := by
-    intro c hc
-    rcases htc c hc with h | h
-    · have := isDigit_ne h; exact ⟨this.1, this.2.1, this.2.2.1⟩
-    · subst h; decide
-  -- the metadata block
-  generalize hM : r.kind ++ ':' :: (r.pid ++ ':' :: r.ts) = M
-  have hMat : '@' ∉ M := by
-    subst hM
-    simp only [List.mem_append, List.mem_cons, not_or]
-    exact ⟨fun h => (hk _ h).2.1 rfl, by decide, fun h => (hpid _ h).2.1 rfl, by decide,
-           fun h => (hts _ h).2.1 rfl⟩
-  have hMnl : '\n' ∉ M := by
-    subst hM
-    simp only [List.mem_append, List.mem_cons, not_or]
-    exact ⟨fun h => (hk _ h).2.2 rfl, by decide, fun h => (hpid _ h).2.2 rfl, by decide,
-           fun h => (hts _ h).2.2 rfl⟩
-  have hsplit : splitOn ':' M = [r.kind, r.pid, r.ts] := by
-    subst hM
-    rw [splitOn_append ':' r.kind _ (fun h => (hk _ h).1 rfl)]
-    rw [splitOn_append ':' r.pid _ (fun h => (hpid _ h).1 rfl)]
-    rw [splitOn_single ':' r.ts (fun h => (hts _ h).1 rfl)]
-  have hfmt : format r = pre ++ (M ++ (sep ++ r.text)) := by
-    unfold format; rw [hM]; simp
-  unfold parse
-  rw [hfmt, isPrefix_append]
-  simp only [Bool.not_true, Bool.false_eq_true, if_false]
-  have hnl : (pre ++ (M ++ (sep ++ r.text))).contains '\n' = false := by
-    simp only [List.contains_eq_mem, List.mem_append, decide_eq_false_iff_not, not_or]
-    exact ⟨by decide, hMnl, by decide, hx⟩
-  rw [hnl]
-  simp only [Bool.false_eq_true, if_false, List.drop_left]
-  rw [findSub_sep M r.text hMat]
-  simp only
-  have : M.contains '@' = false := by simpa using hMat
-  rw [this]
-  simp only [Bool.false_eq_true, if_false, hsplit, hp, ht, Bool.true_or, if_true]
+    parse (format r) = .ok r := roundtrip_proof r hk hp ht hx
 
 /-- `"<rv> <name>"` of a `done` record re-parses to the same status and name, for any name
 (spaces included) and any canonical status. -/
 theorem done_roundtrip (rv name : List Char) (hrv : canonI32 rv = some rv) :
-    parseDoneText (rv ++ ' ' :: name) = some (rv, name) := by
-  have hsp : ' ' ∉ rv := by
-    intro h
-    rcases canonI32_chars hrv _ h with h' | h'
-    · exact (isDigit_ne h').2.2.2 rfl
-    · revert h'; decide
-  unfold parseDoneText
-  rw [findSub_space rv name hsp]
-  simp [hrv]
+    parseDoneText (rv ++ ' ' :: name) = some (rv, name) := done_roundtrip_proof rv name hrv
 
 /-- What `logs::write` accepts: text without newline plus one final newline. -/
 theorem valid_line (l : List Char) (h : '\n' ∉ l) : isValidLogLine (l ++ ['\n']) = true := by
